@@ -274,6 +274,9 @@ class Handler(pipeline.Stream):
         return {"conns": case["conns"], "schedule_len": len(case["sched"]), "switches": obs["switches"],
                 "replies": [(o["status"], (o["body"] or "")[:120], o["effects"]) for o in obs["conns"]]}
 
+    def widen(self, rng):
+        return self.gen("quick", rng)
+
     def shrink(self, case):
         for c in shrink_conns(case):
             n = len(c["conns"])
@@ -364,6 +367,9 @@ class Sockets(pipeline.Stream):
                 "followups": case.get("followups", []),
                 "replies": [(o["status"], (o["body"] or "")[:100], o["effects"]) for o in obs.get("conns", [])],
                 "stop": obs.get("stop")}
+
+    def widen(self, rng):
+        return self.gen("quick", rng)
 
     def shrink(self, case):
         for c in shrink_conns(case):
